@@ -1,5 +1,64 @@
-(* Property C02 — placeholder until the pair theorems land. *)
-From GJ Require Import Base Kernel KernelSpec KernelProofs IntersectsProofs.
-Theorem C02_segment_level_symmetry : forall s o, intersects_segment s o = intersects_segment o s.
+(* Property C02 — Intersects is exact and symmetric.  PARTIAL: the statements
+   below are kernel-checked for every input; completeness of the ring x segment,
+   ring x ring and polygon-pair algorithms is NOT proved (polygonal Jordan curve
+   theorem, DESIGN §9) and is decided by the differential correspondence against
+   the executable oracle PairSpec.meets_x on every run. *)
+From Coq Require Import QArith.
+From GJ Require Import Base Kernel KernelSpec KernelProofs IntersectsProofs IntersectsQ Series SeriesSpec
+  Ring RingSpec PipProofs PairProofs.
+Open Scope Z_scope.
+
+(* segments: true exactly when the closed segments share a point; symmetric *)
+Theorem C02_segment_exact : forall s o, intersects_segment s o = true <-> seg_meet s o.
+Proof. exact intersects_segment_iff. Qed.
+Theorem C02_segment_symmetric : forall s o, intersects_segment s o = intersects_segment o s.
 Proof. exact intersects_segment_sym. Qed.
-Print Assumptions C02_segment_level_symmetry.
+
+(* point x {rect, line, polygon} and the mirrored pairs: the point-set membership of C01 *)
+Theorem C02_point_rect : forall p r, point_intersects_rect p r = in_rectb r p.
+Proof. exact point_intersects_rect_spec. Qed.
+Theorem C02_point_line : forall p ps, point_intersects_line p (Lr ps) = in_lineb ps p.
+Proof. exact point_intersects_line_spec. Qed.
+Theorem C02_point_poly : forall p e hs,
+  point_intersects_poly p (Pg e hs) = in_polyb (ring_edges e) (map ring_edges hs) p.
+Proof. exact point_intersects_poly_spec. Qed.
+Theorem C02_line_point : forall ps p, line_contains_point_r (Lr ps) p = in_lineb ps p.
+Proof. exact line_intersects_point_spec. Qed.
+Theorem C02_poly_point : forall e hs p,
+  poly_contains_point (Pg e hs) p = in_polyb (ring_edges e) (map ring_edges hs) p.
+Proof. exact poly_intersects_point_spec. Qed.
+
+(* rect x rect: the closed boxes share a (rational) point; symmetric *)
+Theorem C02_rect_rect : forall r o, rect_wf r -> rect_wf o ->
+  (rect_intersects_rect r o = true <-> exists x y, in_rectQ r x y /\ in_rectQ o x y).
+Proof. exact rect_intersects_rect_meets. Qed.
+Theorem C02_rect_rect_symmetric : forall r o, rect_intersects_rect r o = rect_intersects_rect o r.
+Proof. exact rect_intersects_rect_sym. Qed.
+
+(* line x line: both have a segment and some pair of segments shares a point;
+   the bounding-box pre-tests and the shorter-line-first swap are invisible; symmetric *)
+Theorem C02_line_line : forall ps qs,
+  line_intersects_line (Lr ps) (Lr qs) = true <->
+  (2 <= length ps)%nat /\ (2 <= length qs)%nat /\
+  exists sa sb, In sa (path_segs ps) /\ In sb (path_segs qs) /\ seg_meet sa sb.
+Proof. exact line_intersects_line_spec. Qed.
+Theorem C02_line_line_symmetric : forall l o, line_intersects_line l o = line_intersects_line o l.
+Proof. exact line_intersects_line_sym. Qed.
+Theorem C02_seg_meet_is_common_point : forall s o,
+  seg_meet s o <-> exists q : Q * Q, on_segQ s q /\ on_segQ o q.
+Proof. exact seg_meet_iff_common_point. Qed.
+
+(* the remaining mixed pairs delegate to one implementation, so operand order cannot matter *)
+Theorem C02_rect_line_symmetric : forall q l, rect_intersects_line q l = line_intersects_rect l q.
+Proof. reflexivity. Qed.
+Theorem C02_rect_poly_symmetric : forall q p, rect_intersects_poly q p = poly_intersects_rect p q.
+Proof. reflexivity. Qed.
+Theorem C02_line_poly_symmetric : forall l p, line_intersects_poly l p = poly_intersects_line p l.
+Proof. reflexivity. Qed.
+
+Print Assumptions C02_segment_exact.
+Print Assumptions C02_rect_rect.
+Print Assumptions C02_line_line.
+Print Assumptions C02_line_line_symmetric.
+Print Assumptions C02_seg_meet_is_common_point.
+Print Assumptions C02_point_poly.
